@@ -1052,7 +1052,9 @@ pub fn evaluate_with(g: &Graph, q: &Query, dev: Deviations) -> Expected {
         t.rows = rows
             .into_iter()
             .filter(|r| {
-                let c = r.iter().map(|v| canon(v, g)).collect::<Vec<_>>().join("|");
+                // like DISTINCT and grouping: whether 0.0 and -0.0 are one value when duplicates are
+                // removed is not decided here (the key keeps the sign, as the engine's does)
+                let c = r.iter().map(|v| canon_key(v, g)).collect::<Vec<_>>().join("|");
                 if seen.contains(&c) {
                     false
                 } else {
@@ -1074,7 +1076,9 @@ pub fn evaluate_with(g: &Graph, q: &Query, dev: Deviations) -> Expected {
         if !*all {
             let mut seen: Vec<String> = Vec::new();
             full.rows.retain(|r| {
-                let c = r.iter().map(|v| canon(v, g)).collect::<Vec<_>>().join("|");
+                // like DISTINCT and grouping: whether 0.0 and -0.0 are one value when duplicates are
+                // removed is not decided here (the key keeps the sign, as the engine's does)
+                let c = r.iter().map(|v| canon_key(v, g)).collect::<Vec<_>>().join("|");
                 if seen.contains(&c) {
                     false
                 } else {
